@@ -5,6 +5,7 @@ package service
 
 import (
 	"net"
+	"time"
 
 	"github.com/Jigsaw-Code/outline-sdk/transport"
 )
@@ -107,8 +108,76 @@ func VH_C05_udp_domain() {
 				verifAssert("C04.udp-domain.association-created-for-allowed-destination", !verifMustReject(ua.IP))
 			}
 			verifAssert("C05.udp-domain.destination-public", !verifMustReject(ua.IP))
+			// the target receives exactly the payload after the (host name) address header
+			verifAssert("C03.udp-domain.payload-intact", len(w.data) == 1 && w.data[0] == 'q' && ua.Port == 53)
 			verifReach("C05.udp-domain.forwarded", true)
 		}
 	}
 	verifReach("C05.udp-domain.second-on-association", len(verifTargets) == 1 && len(verifTargets[0].writes) == 2)
+}
+
+// the service object the server builds (NewShadowsocksService, no special options) applies the
+// default policy to datagrams as well: every destination, both datagrams of an association
+type verifFullMetrics struct{ verifUDPMetrics }
+
+func (m *verifFullMetrics) AddOpenTCPConnection(conn net.Conn) TCPConnMetrics {
+	return &verifTCPMetrics{}
+}
+func (m *verifFullMetrics) AddCipherSearch(proto string, accessKeyFound bool, timeToCipher time.Duration) {
+}
+
+func VH_C05_udp_through_service() {
+	verifResetNet()
+	cl, specs, _ := verifMakeList(1, 1, false)
+	key := verifKey(specs[0].cipher, verifSecrets[specs[0].secret])
+	svc, err := NewShadowsocksService(WithCiphers(cl), WithMetrics(&verifFullMetrics{}))
+	verifAssert("C05.service-udp.built", err == nil)
+	if err != nil {
+		return
+	}
+	client := &verifPacketConn{name: "client"}
+	d1, d2 := verifBytes("dst1", 4), verifBytes("dst2", 4)
+	client.reads = []verifRead{
+		{data: verifPack(key, verifSocksV4(d1, 443, []byte("a"))), addr: verifClientAddrs[0]},
+		{data: verifPack(key, verifSocksV4(d2, 443, []byte("b"))), addr: verifClientAddrs[0]},
+	}
+	svc.HandlePacket(client)
+	verifQuiesce()
+	for _, t := range verifTargets {
+		for _, w := range t.writes {
+			ua := w.addr.(*net.UDPAddr)
+			verifAssert("C05.service-udp.destination-allowed", !verifMustReject(ua.IP))
+			verifReach("C05.service-udp.forwarded", true)
+		}
+	}
+	verifReach("C05.service-udp.done", true)
+}
+
+// C03: a target given by host name receives exactly the payload after its address header (the
+// destination policy is opened up here so that the name may resolve to anything, also natively)
+func VH_C03_hostname_payload() {
+	verifResetNet()
+	cl, specs, _ := verifMakeList(1, 1, false)
+	key := verifKey(specs[0].cipher, verifSecrets[specs[0].secret])
+	h := NewPacketHandler(defaultNatTimeout, cl, &verifUDPMetrics{}, nil)
+	h.SetTargetIPValidator(func(net.IP) error { return nil })
+	client := &verifPacketConn{name: "client"}
+	p1, p2 := verifBytes("p1", 3), verifBytes("p2", 1)
+	mk := func(p []byte) []byte {
+		return verifPack(key, append([]byte{3, 9, 'l', 'o', 'c', 'a', 'l', 'h', 'o', 's', 't', 0, 53}, p...))
+	}
+	client.reads = []verifRead{{data: mk(p1), addr: verifClientAddrs[0]}, {data: mk(p2), addr: verifClientAddrs[0]}}
+	h.Handle(client)
+	verifQuiesce()
+	n := 0
+	for _, t := range verifTargets {
+		for _, w := range t.writes {
+			// (the name may fail to resolve for either datagram: tell them apart by their length)
+			ok := (len(w.data) == 3 && verifBytesEq(w.data, p1)) || (len(w.data) == 1 && verifBytesEq(w.data, p2))
+			verifAssert("C03.hostname.payload-exactly-what-follows-the-header", ok)
+			verifAssert("C03.hostname.port", w.addr.(*net.UDPAddr).Port == 53)
+			n++
+		}
+	}
+	verifReach("C03.hostname.both-forwarded", n == 2)
 }
